@@ -122,11 +122,14 @@ static void case_from_znx64(uint64_t m, int variant /*0 table native,1 table gen
 }
 
 // ---------------------------------------------------------------- reim_to_znx64
-static void case_to_znx64(uint64_t m, int variant /*0 native table,1 generic table,2 ref,3 bnd50,4 bnd63*/, int wide, int dexp, unsigned rep) {
+// log2bound: the bound declared to new_reim_to_znx64_precomp; the values stay below 2^min(log2bound,52)
+static void case_to_znx64_b(uint64_t m, int variant /*0 native table,1 generic table,2 ref,3 bnd50,4 bnd63*/, unsigned log2bound, int dexp, unsigned rep) {
   static const char* vn[] = {"dispatch-native", "dispatch-generic", "ref", "avx2_bnd50_fma", "avx2_bnd63_fma"};
+  const int wide = log2bound > 50;
+  const int maxe = log2bound > 52 ? 52 : (int)log2bound;
   char key[96];
-  snprintf(key, sizeof key, "reim_to_znx64|%s,%s,%s", vn[variant], wide ? "bound63(|x/d|<2^52)" : "bound50(|x/d|<2^50)", m >= 8 ? "m>=8" : "m<8");
-  if (!case_begin(key, "m=%" PRIu64 " divisor=2^%d rep=%u", m, dexp, rep)) return;
+  snprintf(key, sizeof key, "reim_to_znx64|%s,%s,%s", vn[variant], wide ? "log2bound>50(|x/d|<2^52)" : "log2bound<=50", m >= 8 ? "m>=8" : "m<8");
+  if (!case_begin(key, "m=%" PRIu64 " log2bound=%u divisor=2^%d rep=%u", m, log2bound, dexp, rep)) return;
   rng_t* r = crng();
   const uint64_t n = 2 * m;
   const double d = ldexp(1.0, dexp);
@@ -135,10 +138,10 @@ static void case_to_znx64(uint64_t m, int variant /*0 native table,1 generic tab
   int64_t* out = gb_alloc(&go, n * 8, 8, 8 * ((rep + 5) % 8), 4096);
   gb_prefill(&go, (int)rep, 2);
   double* ratio = malloc(n * 8);
-  gen_ratios(r, n, wide ? 52 : 50, ratio, rep);
+  gen_ratios(r, n, maxe, ratio, rep);
   for (uint64_t i = 0; i < n; i++) x[i] = ratio[i] * d;  // exact: power-of-two scaling, no under/overflow here
   set_dispatch(variant != 1);
-  REIM_TO_ZNX64_PRECOMP* p = new_reim_to_znx64_precomp((uint32_t)m, d, wide ? 63 : 50);
+  REIM_TO_ZNX64_PRECOMP* p = new_reim_to_znx64_precomp((uint32_t)m, d, log2bound);
   set_dispatch(1);
   switch (variant) {
     case 0: case 1: reim_to_znx64(p, out, x); break;
@@ -169,6 +172,8 @@ static void case_to_znx64(uint64_t m, int variant /*0 native table,1 generic tab
   sample("%" PRIu64 " doubles incl. near-ties and domain boundary rounded within 1/2", n);
   case_end(1);
 }
+
+static void case_to_znx64(uint64_t m, int variant, int wide, int dexp, unsigned rep) { case_to_znx64_b(m, variant, wide ? 63 : 50, dexp, rep); }
 
 // ---------------------------------------------------------------- reim_to_tnx (double -> torus double)
 static void case_to_tnx(uint64_t m, int variant /*0 native,1 generic,2 ref,3 avx*/, unsigned ovh, int dexp, unsigned rep) {
@@ -353,6 +358,13 @@ void run_C14(void) {
         }
     }
   }
+  // every declared bound 1..64 through the table dispatch (both sides of the fast/wide selection at 50)
+  for (unsigned b = 1; b <= 64; b++)
+    for (size_t mi = 0; mi < 4; mi++) {
+      static const uint64_t MB[] = {2, 8, 64, 1024};
+      for (int v = 0; v < 2; v++)
+        for (unsigned rep = 20; rep < (th ? 24u : 21u); rep++) case_to_znx64_b(MB[mi], v, b, DIV_EXP[(b + mi) % ARRAY_LEN(DIV_EXP)], rep);
+    }
   // every m = 1..4096 on the table-dispatched entry points (thresholds m = 8)
   for (uint64_t m = 1; m <= 4096; m <<= 1)
     for (unsigned rep = 10; rep < (th ? 14u : 11u); rep++) {
